@@ -2,6 +2,7 @@ SPECIFICATION TraceSpec
 CONSTANTS
   ChargeNoMetricInMaxUR = TRUE
   ReqPolicySysUsage = TRUE
-INVARIANT TypeOK
+\* property invariants as CONSTRAINTs before Report (docs/FAMILY_GUIDE.md): a violating recorded state cuts only its own segment
+CONSTRAINT TypeOK
 CONSTRAINT Report
 CHECK_DEADLOCK FALSE
